@@ -371,6 +371,14 @@ def judge(hist, obs, version, kind="base", persist="none"):
             if ob.exc is not None:
                 sp.flag("C01", "logic-raised", f"processing a line raised {ob.exc}", at, exc=ob.exc,
                         accepted=f is not None)
+                if f is not None and sp.is_wake(f):
+                    sp.flag("C08", "wake-up-raised", f"the wake-up flush raised {ob.exc}", at, exc=ob.exc)
+                    sp.flag("C07", "wake-up-raised", f"the wake-up flush raised {ob.exc}", at, exc=ob.exc)
+                elif f is not None and f[2] == 2:
+                    sp.flag("C08", "value-request-raised", f"a value request raised {ob.exc}", at, exc=ob.exc)
+                    sp.flag("C05", "value-request-raised", f"a value request raised {ob.exc}", at, exc=ob.exc)
+                elif f is not None and f[2] == 4:
+                    sp.flag("C10", "stream-request-raised", f"a stream request raised {ob.exc}", at, exc=ob.exc)
             if f is None:
                 if (ob.sent or ob.cbs or ob.state != prev.state or ob.ota != prev.ota):
                     sp.flag("C01", "rejected-line-had-effect", "a rejected line changed state or produced output", at)
